@@ -30,10 +30,18 @@ impl DIDUrlQuery<'_> {
     }
   }
 
+  /// Whether the query is a full DID Url (`did:...`), as opposed to a relative DID Url or a bare fragment
+  /// (which may itself start with the letters of the scheme, e.g. `did-key-1`).
+  fn has_did_scheme(query: &str) -> bool {
+    query
+      .strip_prefix(CoreDID::SCHEME)
+      .is_some_and(|rest| rest.starts_with(':'))
+  }
+
   /// Extract the DID portion of the query if it exists.
   fn did_str(&self) -> Option<&str> {
     let query: &str = self.0.as_ref();
-    if !query.starts_with(CoreDID::SCHEME) {
+    if !Self::has_did_scheme(query) {
       return None;
     }
 
@@ -49,7 +57,7 @@ impl DIDUrlQuery<'_> {
   /// Extract the query fragment if it exists.
   fn fragment(&self) -> Option<&str> {
     let query: &str = self.0.as_ref();
-    let fragment_maybe: Option<&str> = if query.starts_with(CoreDID::SCHEME) {
+    let fragment_maybe: Option<&str> = if Self::has_did_scheme(query) {
       // Extract the fragment from a full DID-Url-like string.
       query.rfind('#').and_then(|index| query.get(index + 1..))
     } else if let Some(fragment_delimiter_index) = query.rfind('#') {
